@@ -83,7 +83,7 @@ def uf_apply(name, args, out_sort=None):
     if not is_z3(a):
       a = R.tolit(a) if isinstance(a, (bool, int)) else R.rlit(a)
     zs.append(a)
-  f = z3.Function(name, *[a.sort() for a in zs], out_sort or z3.RealSort())
+  f = z3.Function(name, *[a.sort() for a in zs], out_sort if out_sort is not None else z3.RealSort())
   return f(*zs)
 
 
